@@ -139,7 +139,11 @@ BuildMembers(fh, lh, nsp, i) ==
   ELSE LET m  == CD.members[i]
            f0 == Len(fh) + 1
            r  == ApplyDecos(Append(fh, FnObj("plain", 0, 0, 0, 0)), lh, f0, m.decos, 1)
-       IN IF r.err # "ok" THEN [fh |-> r.fh, lh |-> r.lh, ns |-> nsp, err |-> r.err]
+       IN IF m.kind = "none"
+            THEN \* an accessor the re-declared property does NOT have (e.g. no setter): the name is bound to nothing
+                 \* in this class and shadows what the bases provide
+                 BuildMembers(fh, lh, [x \in DOMAIN nsp \cup {m.name} |-> IF x = m.name THEN NoMember ELSE nsp[x]], i + 1)
+          ELSE IF r.err # "ok" THEN [fh |-> r.fh, lh |-> r.lh, ns |-> nsp, err |-> r.err]
           ELSE BuildMembers(r.fh, r.lh, [x \in DOMAIN nsp \cup {m.name} |->
                                           IF x = m.name THEN [kind |-> m.kind, f |-> r.f, rb |-> FALSE] ELSE nsp[x]], i + 1)
 
@@ -192,7 +196,7 @@ CopyLists(lh, ids, i, n) == IF i > n THEN lh ELSE CopyLists(Append(lh, lh[ids[i]
 \* decorate one namespace entry; returns [fh, lh, ns, err]
 MetaMember(fh, lh, nsp, name) ==
   LET mem  == nsp[name]
-      chk  == FindChecker(fh, mem.f, 0)
+      chk  == IF mem.kind = "none" THEN 0 ELSE FindChecker(fh, mem.f, 0)
       ownPre  == IF chk = 0 THEN <<>> ELSE lh[fh[chk].pre]       \* sequence of group list ids
       ownSnap == IF chk = 0 THEN <<>> ELSE lh[fh[chk].snap]
       ownPost == IF chk = 0 THEN <<>> ELSE lh[fh[chk].post]
@@ -205,7 +209,8 @@ MetaMember(fh, lh, nsp, name) ==
       snap == b.snap \o ownSnap
       post == b.post \o ownPost
   IN
-  IF ~ctor /\ b.pre = <<>> /\ b.has /\ ownPre # <<>>
+  IF mem.kind = "none" THEN [fh |-> fh, lh |-> lh, ns |-> nsp, err |-> "ok"]
+  ELSE IF ~ctor /\ b.pre = <<>> /\ b.has /\ ownPre # <<>>
     THEN [fh |-> fh, lh |-> lh, ns |-> nsp, err |-> "TypeError"]      \* weakening although the bases accept everything
   ELSE IF ~ctor /\ DupSnap(lh, snap)
     THEN [fh |-> fh, lh |-> lh, ns |-> nsp, err |-> "ValueError"]
@@ -275,7 +280,7 @@ WrapAll(fh, ch, k, names) ==
   IF names = {} THEN [fh |-> fh, ch |-> ch]
   ELSE LET name == CHOOSE x \in names : TRUE
            mem  == Lookup(ch, k, name)
-       IN IF ~Public(name) \/ mem.kind \notin {"fn", "prop"}
+       IN IF ~Public(name) \/ mem.kind \notin {"fn", "prop", "pset"}     \* pset: the setter of a property
             THEN WrapAll(fh, ch, k, names \ {name})
           ELSE IF IsInvWrapped(fh, mem.f)
             THEN \* already wrapped: an inherited member stays where it is
